@@ -99,6 +99,14 @@ CLAIMED = {
              "chunkings is not decided.",
         technique="call-graph reachability from discovered task entries + effect analysis (shared-state conflict rule), hash/eq rule, cached-result immutability rule, lazy-shape source rule with symbolic shapes",
         ref="5 C10"),
+    "C11": dict(
+        text="The coordinate-frame type system evaluates the axis properties (x,y,z are the images of columns 2,1,0), the internal rotation "
+             "(component k paired with axis k, right composition), rotate_by (left composition with a world rotation, positions untouched), "
+             "translate/translate_internal and records any frame clash; table rules check the Euler reader/writer conventions and both cross() "
+             "copies; a CFG rule proves the stores to self in translate/rotate_by are unreachable when copy is true; the two-axes constructor "
+             "must build the rotation row-wise (no whole-batch special case). Numerical round trips on SO(3) are not decided.",
+        technique="frame typing by abstract interpretation over ast, convention-table rules, CFG reachability under a branch condition",
+        ref="5 C11"),
 }
 
 NOT_APPLICABLE = {
